@@ -206,12 +206,11 @@ def panic_free(chk, F):
     chk.ob(rule, "<Duration as Mul<f64>>::mul", "precision-search-terminates", ok, "every path leaves the loop within the step bound",
            detail=ends)
     no_bad_events(chk, rule, "<Duration as Mul<f64>>::mul", finals, eng)
-    # compose_f64 = sum of unit conversions, negated for negative sign (shape)
-    fn = F.find1(self_ty="Duration", name="compose_f64", trait="")
-    names = [cfg.callee_name(t["f"]).split("::")[-1] for bi, t in cfg.calls(fn)]
-    want = ["days", "hours", "minutes", "seconds", "milliseconds", "microseconds", "nanoseconds"]
-    ok = [n for n in names if n in want] == want
-    chk.ob(rule, "Duration::compose_f64", "sum-of-the-seven-unit-conversions-in-order", ok, "call sequence", detail=None if ok else names)
+    # compose_f64 = sum of the seven unit conversions, parameter k with unit k, negated for a negative sign (interpreted; shared with C11.R2)
+    from .c11 import compose_f64_semantics
+    ok, detail = compose_f64_semantics(F)
+    chk.ob(rule, "Duration::compose_f64", "sum-of-the-seven-unit-conversions-in-order", ok, "interpreted: result == +/- sum of (param k x unit k)",
+           detail=None if ok else detail)
 
 
 ROUNDERS = ("floor", "round", "trunc", "ceil")
